@@ -547,6 +547,22 @@ def bg_array_rule(rep):
         rep.ob(f"AR5 {name}: safety {desc}", {"unsat": "discharged", "sat": "refuted"}.get(r.status, "unknown"), r.backend, r.seconds, where, "vc")
     goal = out_k == (BG[k] != z3.If(E[k] >= 0, BG[rowof(E[k])], -1))
     r = solve.check([*hyp, z3.Not(goal)], 20)
+    if r.status == "sat":
+        # small counter-model -> concrete arrays -> the real function against the specification
+        r2 = solve.check([*hyp, z3.Not(goal), N <= 4], 20)
+        m = (r2 if r2.status == "sat" else r).model
+        n = m.eval(N, model_completion=True).as_long()
+        if 0 < n <= 64:
+            col = lambda A: [m.eval(A[z3.IntVal(t)], model_completion=True).as_long() for t in range(n)]  # noqa: E731
+            inp = {"p_id": col(P), "bg_id": col(BG), "p_id_kindergeld_empf": col(E)}
+            try:
+                got = [bool(v) for v in f(**{a: numpy.array(v) for a, v in inp.items()})]
+            except Exception as ex:  # noqa: BLE001
+                got = repr(ex)
+            bgof = dict(zip(inp["p_id"], inp["bg_id"]))
+            want = [b != (bgof.get(e_, None) if e_ >= 0 else -1) for b, e_ in zip(inp["bg_id"], inp["p_id_kindergeld_empf"])]
+            if got != want:
+                rep.violation(f"AR5:{name}", f"{name}{inp} returns {got}, definition gives {want}", {"rule": name, "input": inp, "got": got, "want": want, "replay": "array_rule"}, True)
     rep.ob(f"AR5 {name}: row i is True iff its bg_id differs from the bg_id of the row its Kindergeld recipient pointer names (-1 if none)", {"unsat": "discharged", "sat": "refuted"}.get(r.status, "unknown"), r.backend, r.seconds, where, "vc")
     rep.functions.add(f"{where} {name}")
 
@@ -569,6 +585,18 @@ def replay(path):
         got = getattr(an, k)(numpy.array(rp["column"]), numpy.array(rp["group_id"]))
         print(json.dumps({"got": numpy.asarray(got).tolist(), "expected": rp["expected"]}))
         return 1 if not numpy.allclose(numpy.asarray(got, dtype=float), numpy.asarray(rp["expected"], dtype=float)) else 0
+    if rp.get("replay") == "array_rule":
+        import inspect as _i
+
+        from _gettsim.transfers.arbeitsl_geld_2 import kindergelduebertrag as kg
+
+        f = _i.unwrap(getattr(kg, rp["rule"]))
+        try:
+            got = [bool(v) for v in f(**{a: numpy.array(v) for a, v in rp["input"].items()})]
+        except Exception as ex:  # noqa: BLE001
+            got = repr(ex)
+        print(json.dumps({"got": got, "expected": rp["want"]}))
+        return 1 if got != rp["want"] else 0
     print(json.dumps(rp, indent=1))
     return 0
 
